@@ -4,17 +4,36 @@ from checks import span_cover as sc
 PID = "C05"
 
 
+def mask_disagreements(inputs):
+    """the Coq scanner (extracted) and the monitor's Rust scanner on the same inputs"""
+    import os
+    from vlib import common
+    from vlib.common import hx
+    bindir = common.build_harness(["cmask"])
+    runner = common.build_runner("cmask", ["Base/Chars.v", "Model/Lexer.v", "Model/CommentMask.v"])
+    cases = [hx(s) for s in inputs]
+    a = common.run_lines(os.path.join(bindir, "cmask"), cases, tag="implmask")
+    b = common.run_lines(runner, cases, tag="modelmask")
+    return [(s, {"input": s, "input_hex": hx(s), "part": "comment mask", "impl": x, "model": y})
+            for s, x, y in zip(inputs, a, b) if x != y]
+
+
 def run(rep, tier, seed):
     sc.run(PID, "c05:", rep, tier, seed,
            "lexer and pull parser (Model/Lexer.v, Model/Parser.v); the comment scanner of the monitor is written "
            "independently in Rust (harness/src/bin/pmon.rs) and in Coq (Model/CommentMask.v)",
            "theorems tie the independent comment scanner to the lexer's comment tokens and place every letter or "
            "digit outside comments in a Word/Int/Escaped token, for every input; coverage of those tokens by events "
-           "is decided by exact correspondence + monitor")
+           "is decided by exact correspondence + monitor", extra=mask_disagreements)
+    rep.coverage["comment_scanner_correspondence"] = "Model/CommentMask.v (extracted) vs the monitor's comment_mask on every input"
     rep.assumptions = ["`alphanumeric` is char::is_alphanumeric of the running std (the model takes it as the parameter U)"]
 
 
-setup = sc.setup
+def setup():
+    from vlib import common
+    sc.setup()
+    common.build_harness(["cmask"])
+    common.build_runner("cmask", ["Base/Chars.v", "Model/Lexer.v", "Model/CommentMask.v"])
 
 
 def replay(rp):
